@@ -34,6 +34,30 @@ func drawC12(rt *rapid.T) *Case {
 	return c
 }
 
+// otherLeaves replaces every scalar leaf of a decoded document (in place; the caller passes a
+// private copy) by a value that occurs nowhere else.
+func otherLeaves(v interface{}) interface{} {
+	n := 0
+	var walk func(v interface{}) interface{}
+	walk = func(v interface{}) interface{} {
+		switch t := v.(type) {
+		case map[string]interface{}:
+			for k, c := range t {
+				t[k] = walk(c)
+			}
+			return t
+		case []interface{}:
+			for i, c := range t {
+				t[i] = walk(c)
+			}
+			return t
+		}
+		n++
+		return fmt.Sprintf("other-document-%d", n)
+	}
+	return walk(v)
+}
+
 func containsAccessor(v interface{}) bool {
 	switch t := v.(type) {
 	case jsonpath.Accessor, *jsonpath.Accessor:
@@ -98,6 +122,19 @@ func checkC12(c *Case, st *Stats) string {
 				return fmt.Sprintf("accessor %d Get() = %s, plain mode value = %s", i, JSONString(v), JSONString(plain.got[i]))
 			}
 		}
+		if acc.again != nil && len(acc.got) > 0 {
+			// the accessors stay what they are when the same parsed function is called again
+			logged, errs := len(acc.rec.Calls), acc.rec.Errs
+			_, _ = acc.again(otherLeaves(c.Document())) // same shape, every scalar replaced
+			acc.rec.Calls, acc.rec.Errs = acc.rec.Calls[:logged], errs // the second call is not part of the comparison below
+			st.Eval(1)
+			for i := range acc.got {
+				if v := acc.got[i].(jsonpath.Accessor).Get(); !deepSame(v, plain.got[i]) {
+					return fmt.Sprintf("after the same accessor-mode function was called once more, accessor %d of the FIRST call leads to %s (was %s)", i, JSONString(v), JSONString(plain.got[i]))
+				}
+			}
+			st.Class("accessors-kept-across-a-second-call")
+		}
 		for i := range plain.got {
 			if !docHoldsAccessors && containsAccessor(plain.got[i]) {
 				return fmt.Sprintf("plain-mode result %d contains an Accessor", i)
@@ -147,6 +184,45 @@ func checkC12(c *Case, st *Stats) string {
 		}
 		if eD == nil && len(gotD) != len(plain.got) {
 			return fmt.Sprintf("accessor mode set on a copy of a Config: %d results, plain mode %d", len(gotD), len(plain.got))
+		}
+	}
+	// The mode of a parsed function is the mode of the Config it was parsed with, at that time: a
+	// caller that keeps its Configs in a slice (Parse(path, configs...)) and changes an element
+	// afterwards does not change functions it parsed before.
+	if len(c.Path)%2 == 0 {
+		cfgs := []jsonpath.Config{BuildConfig(nil, true, false)}
+		fp, errP := jsonpath.Parse(c.Path, cfgs...)
+		cfgs[0].SetAccessorMode()
+		fa2, errA := jsonpath.Parse(c.Path, cfgs...)
+		noteParse(c.Path, true, false)
+		noteParse(c.Path, true, true)
+		st.Class("config slice changed after Parse")
+		if errP != nil || errA != nil {
+			return fmt.Sprintf("Parse with a spread Config slice fails: %v / %v", errP, errA)
+		}
+		gotP, eP := fp(c.Document())
+		cfgs[0] = jsonpath.Config{}
+		gotA, eA := fa2(c.Document())
+		st.Eval(2)
+		if (eP == nil) != (plain.err == nil) || (eA == nil) != (plain.err == nil) {
+			return fmt.Sprintf("Config slice changed after Parse: plain-parsed (%s, %v), accessor-parsed (%d values, %v), reference (%s, %v)", JSONString(gotP), eP, len(gotA), eA, JSONString(plain.got), plain.err)
+		}
+		if eP == nil {
+			if !docHoldsAccessors {
+				for i := range gotP {
+					if containsAccessor(gotP[i]) {
+						return fmt.Sprintf("a function parsed in plain mode returns Accessors after SetAccessorMode was called on the caller's Config slice element: result %d is %T", i, gotP[i])
+					}
+				}
+			}
+			if len(gotA) != len(plain.got) {
+				return fmt.Sprintf("a function parsed in accessor mode returns %d results, plain mode %d", len(gotA), len(plain.got))
+			}
+			for i := range gotA {
+				if _, ok := gotA[i].(jsonpath.Accessor); !ok {
+					return fmt.Sprintf("a function parsed in accessor mode returns plain values after the caller reset its Config slice element: result %d is %T", i, gotA[i])
+				}
+			}
 		}
 	}
 	if !c.AST.HasFunc() {
